@@ -1345,4 +1345,308 @@ theorem computeRoot_hash_inj {H : HashFn} (hk : HashOK H) {ign ign' : Bool} {L L
     (hh : r.hash = r'.hash) : L = L' :=
   computeRootAux_hash_inj hk _ _ L L' r r' (by omega) (by omega) al al' e e' hh
 
+
+theorem ltB_irrefl : ∀ (a : Bytes), ltB a a = false := by
+  intro a
+  induction a with
+  | nil => rfl
+  | cons x t ih => simp [ltB, ih]
+
+theorem ltB_trichotomy : ∀ (a b : Bytes), ltB a b = true ∨ a = b ∨ ltB b a = true := by
+  intro a
+  induction a with
+  | nil => intro b; cases b <;> simp [ltB]
+  | cons x t ih =>
+    intro b
+    cases b with
+    | nil => simp [ltB]
+    | cons y u =>
+      by_cases h1 : x < y
+      · left; simp [ltB, h1]
+      · by_cases h2 : x = y
+        · subst h2
+          rcases ih u with h | h | h
+          · left; simp [ltB, h]
+          · right; left; rw [h]
+          · right; right; simp [ltB, h]
+        · right; right
+          have : y < x := by
+            rcases Nat.lt_trichotomy x.toNat y.toNat with h | h | h
+            · exact absurd (UInt8.lt_iff_toNat_lt.mpr h) h1
+            · exact absurd (UInt8.toNat_inj.mp h) h2
+            · exact UInt8.lt_iff_toNat_lt.mpr h
+          simp [ltB, this]
+
+theorem ltB_asymm : ∀ {a b : Bytes}, ltB a b = true → ltB b a = false := by
+  intro a
+  induction a with
+  | nil => intro b h; cases b <;> simp [ltB] at h ⊢
+  | cons x t ih =>
+    intro b h
+    cases b with
+    | nil => simp [ltB] at h
+    | cons y u =>
+      simp only [ltB] at h ⊢
+      by_cases h1 : x < y
+      · have h2 : ¬ (y < x) := by
+          intro h2
+          have := UInt8.lt_iff_toNat_lt.mp h1
+          have := UInt8.lt_iff_toNat_lt.mp h2
+          omega
+        have h3 : ¬ (y = x) := by
+          intro h3; subst h3
+          have := UInt8.lt_iff_toNat_lt.mp h1
+          omega
+        simp [h2, h3]
+      · simp only [h1, ↓reduceIte] at h
+        by_cases h2 : x = y
+        · subst h2
+          simp only [↓reduceIte] at h
+          simp [h1, ih h]
+        · simp [h2] at h
+
+theorem ltB_trans : ∀ {a b c : Bytes}, ltB a b = true → ltB b c = true → ltB a c = true := by
+  intro a
+  induction a with
+  | nil =>
+    intro b c h1 h2
+    cases b with
+    | nil => simp [ltB] at h1
+    | cons y u => cases c with
+      | nil => simp [ltB] at h2
+      | cons z v => simp [ltB]
+  | cons x t ih =>
+    intro b c h1 h2
+    cases b with
+    | nil => simp [ltB] at h1
+    | cons y u =>
+      cases c with
+      | nil => simp [ltB] at h2
+      | cons z v =>
+        simp only [ltB] at h1 h2 ⊢
+        by_cases hxy : x < y
+        · by_cases hyz : y < z
+          · have : x < z := by
+              have := UInt8.lt_iff_toNat_lt.mp hxy
+              have := UInt8.lt_iff_toNat_lt.mp hyz
+              exact UInt8.lt_iff_toNat_lt.mpr (by omega)
+            simp [this]
+          · simp only [hyz, ↓reduceIte] at h2
+            by_cases hyz2 : y = z
+            · subst hyz2; simp [hxy]
+            · simp [hyz2] at h2
+        · simp only [hxy, ↓reduceIte] at h1
+          by_cases hxy2 : x = y
+          · subst hxy2
+            simp only [↓reduceIte] at h1
+            by_cases hyz : x < z
+            · simp [hyz]
+            · simp only [hyz, ↓reduceIte] at h2 ⊢
+              by_cases hyz2 : x = z
+              · subst hyz2
+                simp only [↓reduceIte] at h2 ⊢
+                exact ih h1 h2
+              · simp [hyz2] at h2
+          · simp [hxy2] at h1
+
+theorem leB_refl (a : Bytes) : leB a a = true := by simp [leB, ltB_irrefl]
+
+theorem leB_trans {a b c : Bytes} (h1 : leB a b = true) (h2 : leB b c = true) : leB a c = true := by
+  unfold leB at *
+  simp only [Bool.not_eq_true'] at *
+  rcases ltB_trichotomy c a with h | h | h
+  · -- c < a: then with a ≤ b, c < b … contradiction with b ≤ c
+    exfalso
+    rcases ltB_trichotomy a b with h' | h' | h'
+    · have := ltB_trans h h'; rw [this] at h2; cases h2
+    · subst h'; rw [h] at h2; cases h2
+    · rw [h'] at h1; cases h1
+  · subst h; exact ltB_irrefl _
+  · exact ltB_asymm h
+
+theorem leB_total (a b : Bytes) : leB a b = true ∨ leB b a = true := by
+  unfold leB
+  rcases ltB_trichotomy a b with h | h | h
+  · left; simp [ltB_asymm h]
+  · subst h; left; simp [ltB_irrefl]
+  · right; simp [ltB_asymm h]
+
+theorem leB_antisymm {a b : Bytes} (h1 : leB a b = true) (h2 : leB b a = true) : a = b := by
+  unfold leB at *
+  simp only [Bool.not_eq_true'] at *
+  rcases ltB_trichotomy a b with h | h | h
+  · rw [h] at h2; cases h2
+  · exact h
+  · rw [h] at h1; cases h1
+
+theorem ltB_of_not_leB {a b : Bytes} (h : leB a b = false) : ltB b a = true := by
+  unfold leB at h; simpa using h
+
+theorem leB_of_ltB {a b : Bytes} (h : ltB a b = true) : leB a b = true := by
+  unfold leB; simp [ltB_asymm h]
+
+theorem ltB_of_ltB_of_leB {a b c : Bytes} (h1 : ltB a b = true) (h2 : leB b c = true) : ltB a c = true := by
+  rcases ltB_trichotomy b c with h | h | h
+  · exact ltB_trans h1 h
+  · subst h; exact h1
+  · unfold leB at h2; rw [h] at h2; cases h2
+
+theorem ltB_of_leB_of_ltB {a b c : Bytes} (h1 : leB a b = true) (h2 : ltB b c = true) : ltB a c = true := by
+  rcases ltB_trichotomy a b with h | h | h
+  · exact ltB_trans h h2
+  · subst h; exact h2
+  · unfold leB at h1; rw [h] at h1; cases h1
+
+/-- every 29-byte string is at most the all-0xff namespace -/
+theorem leB_maxNsId : ∀ (n : Nat) (a : Bytes), a.length = n → leB a (List.replicate n 255) = true := by
+  intro n
+  induction n with
+  | zero => intro a h; have : a = [] := List.eq_nil_of_length_eq_zero h
+            subst this; rfl
+  | succ n ih =>
+    intro a h
+    cases a with
+    | nil => simp at h
+    | cons x t =>
+      have ht : t.length = n := by simpa using h
+      have := ih t ht
+      unfold leB at this ⊢
+      simp only [List.replicate_succ, ltB]
+      have hx : ¬ ((255 : UInt8) < x) := by
+        intro hh
+        have := UInt8.lt_iff_toNat_lt.mp hh
+        have := UInt8.toNat_lt x
+        simp at *; omega
+      simp only [hx, ↓reduceIte]
+      by_cases h2 : (255 : UInt8) = x
+      · simp only [h2, ↓reduceIte]; rw [← h2]; exact this
+      · simp [h2]
+
+
+/-- a leaf hash: equal min and max namespace of 29 bytes -/
+def LeafNs (x : NsHash) : Prop := x.minNs = x.maxNs ∧ x.minNs.length = NS_SIZE
+
+theorem leB_maxB_left (a b : Bytes) : leB a (maxB a b) = true := by
+  unfold maxB; split
+  · assumption
+  · exact leB_refl a
+theorem leB_maxB_right (a b : Bytes) : leB b (maxB a b) = true := by
+  unfold maxB; split
+  · exact leB_refl b
+  · rename_i h
+    rcases leB_total a b with h' | h'
+    · exact absurd h' h
+    · exact h'
+
+theorem eq_maxNsId_of_le {a : Bytes} (hl : a.length = NS_SIZE) (h : leB maxNsId a = true) : a = maxNsId :=
+  leB_antisymm (leB_maxNsId NS_SIZE a hl) h
+
+/-- what the root of a namespace-sorted list of leaf hashes says about their namespaces (`ignore_max_ns = true`) -/
+structure RangeOK (L : List NsHash) (r : NsHash) : Prop where
+  minLe : ∀ x ∈ L, leB r.minNs x.minNs = true
+  minMem : ∃ x ∈ L, r.minNs = x.minNs
+  maxGe : ∀ x ∈ L, x.minNs ≠ maxNsId → leB x.minNs r.maxNs = true
+  maxAll : (∀ x ∈ L, x.minNs = maxNsId) → r.maxNs = maxNsId
+  maxMem : ∃ x ∈ L, leB r.maxNs x.minNs = true
+  minMax : leB r.minNs r.maxNs = true
+
+theorem range_node {H : HashFn} {L : List NsHash} {k : Nat} {l rr r : NsHash} (hk1 : 1 ≤ k) (hklt : k < L.length)
+    (hleaf : ∀ x ∈ L, LeafNs x) (hsort : L.Pairwise (fun a b => leB a.minNs b.minNs = true))
+    (RL : RangeOK (L.take k) l) (RR : RangeOK (L.drop k) rr) (hn : hashNodes H true l rr = .ok r) : RangeOK L r := by
+  have hsplit : L.take k ++ L.drop k = L := List.take_append_drop k L
+  have hsort' := hsort
+  rw [← hsplit, List.pairwise_append] at hsort'
+  obtain ⟨hst, hsd, hcross⟩ := hsort'
+  have hmemL : ∀ x, x ∈ L ↔ x ∈ L.take k ∨ x ∈ L.drop k := by
+    intro x; conv => lhs; rw [← hsplit]
+    exact List.mem_append
+  obtain ⟨xl, hxl, hxle⟩ := RL.minMem
+  obtain ⟨xr, hxr, hxre⟩ := RR.minMem
+  have hlr : leB l.minNs rr.minNs = true := by rw [hxle, hxre]; exact hcross xl hxl xr hxr
+  -- unfold hash_nodes
+  unfold hashNodes at hn
+  split at hn
+  · cases hn
+  · injection hn with hn
+    subst hn
+    have hmin : minB l.minNs rr.minNs = l.minNs := by unfold minB; simp [hlr]
+    have hminLe : ∀ x ∈ L, leB l.minNs x.minNs = true := by
+      intro x hx
+      rcases (hmemL x).mp hx with h | h
+      · exact RL.minLe x h
+      · rw [hxle]; exact hcross xl hxl x h
+    have hdropMax : rr.minNs = maxNsId → ∀ x ∈ L.drop k, x.minNs = maxNsId := by
+      intro h x hx
+      have := RR.minLe x hx
+      rw [h] at this
+      exact eq_maxNsId_of_le (hleaf x (List.mem_of_mem_drop hx)).2 this
+    simp only [Bool.true_and, hmin]
+    by_cases cA : (l.minNs == maxNsId) = true
+    · have hA : l.minNs = maxNsId := by simpa using cA
+      simp only [cA, ↓reduceIte]
+      refine ⟨hminLe, ⟨xl, (hmemL xl).mpr (Or.inl hxl), hxle⟩, ?_, fun _ => rfl, ?_, ?_⟩
+      · intro x hx _; exact leB_maxNsId NS_SIZE _ (hleaf x hx).2
+      · exact ⟨xl, (hmemL xl).mpr (Or.inl hxl), by rw [← hxle, hA]; exact leB_refl _⟩
+      · rw [hA]; exact leB_refl _
+    · have hA : l.minNs ≠ maxNsId := by simpa using cA
+      have notAll : ¬ (∀ x ∈ L, x.minNs = maxNsId) := by
+        intro h; apply hA; rw [hxle]; exact h xl ((hmemL xl).mpr (Or.inl hxl))
+      simp only [cA, Bool.false_eq_true, ↓reduceIte]
+      by_cases cB : (rr.minNs == maxNsId) = true
+      · have hB : rr.minNs = maxNsId := by simpa using cB
+        simp only [cB, ↓reduceIte]
+        refine ⟨hminLe, ⟨xl, (hmemL xl).mpr (Or.inl hxl), hxle⟩, ?_, fun h => absurd h notAll, ?_, RL.minMax⟩
+        · intro x hx hne'
+          rcases (hmemL x).mp hx with h | h
+          · exact RL.maxGe x h hne'
+          · exact absurd (hdropMax hB x h) hne'
+        · obtain ⟨y, hy, hyl⟩ := RL.maxMem
+          exact ⟨y, (hmemL y).mpr (Or.inl hy), hyl⟩
+      · simp only [cB, Bool.false_eq_true, ↓reduceIte]
+        refine ⟨hminLe, ⟨xl, (hmemL xl).mpr (Or.inl hxl), hxle⟩, ?_, fun h => absurd h notAll, ?_, ?_⟩
+        · intro x hx hne'
+          rcases (hmemL x).mp hx with h | h
+          · exact leB_trans (RL.maxGe x h hne') (leB_maxB_left _ _)
+          · exact leB_trans (RR.maxGe x h hne') (leB_maxB_right _ _)
+        · rcases maxB_cases l.maxNs rr.maxNs with h | h
+          · obtain ⟨y, hy, hyl⟩ := RL.maxMem
+            exact ⟨y, (hmemL y).mpr (Or.inl hy), by rw [h]; exact hyl⟩
+          · obtain ⟨y, hy, hyl⟩ := RR.maxMem
+            exact ⟨y, (hmemL y).mpr (Or.inr hy), by rw [h]; exact hyl⟩
+        · exact leB_trans RL.minMax (leB_maxB_left _ _)
+
+theorem computeRootAux_range {H : HashFn} : ∀ (fuel : Nat) {L : List NsHash} {r : NsHash},
+    L ≠ [] → (∀ x ∈ L, LeafNs x) → L.Pairwise (fun a b => leB a.minNs b.minNs = true) →
+    computeRootAux H true fuel L = .ok r → RangeOK L r := by
+  intro fuel
+  induction fuel with
+  | zero => intro L r _ _ _ e; simp [computeRootAux] at e
+  | succ f ih =>
+    intro L r hne hleaf hsort e
+    match L, hne, hleaf, hsort, e with
+    | [x], _, hleaf, _, e =>
+      simp [computeRootAux] at e
+      subst e
+      obtain ⟨h1, h2⟩ := hleaf x (by simp)
+      refine ⟨?_, ⟨x, by simp, rfl⟩, ?_, ?_, ⟨x, by simp, by rw [← h1]; exact leB_refl _⟩, by rw [← h1]; exact leB_refl _⟩
+      · intro y hy; simp at hy; subst hy; exact leB_refl _
+      · intro y hy _; simp at hy; subst hy; rw [← h1]; exact leB_refl _
+      · intro h; rw [← h1]; exact h x (by simp)
+    | a :: b :: rest, _, hleaf, hsort, e =>
+      obtain ⟨l, rr, hl, hr, hn⟩ := computeRootAux_cons2 e
+      obtain ⟨m, hm, hmlt, _⟩ := nextSmallerPo2_spec (a :: b :: rest).length (by simp)
+      have hk1 : 1 ≤ nextSmallerPo2 (a :: b :: rest).length := by rw [hm]; exact Nat.one_le_two_pow
+      have hklt : nextSmallerPo2 (a :: b :: rest).length < (a :: b :: rest).length := by rw [hm]; exact hmlt
+      have hsplit := List.take_append_drop (nextSmallerPo2 (a :: b :: rest).length) (a :: b :: rest)
+      have htne : (a :: b :: rest).take (nextSmallerPo2 (a :: b :: rest).length) ≠ [] := by
+        intro h; have := congrArg List.length h; rw [List.length_take, List.length_nil] at this; omega
+      have hdne : (a :: b :: rest).drop (nextSmallerPo2 (a :: b :: rest).length) ≠ [] := by
+        intro h; have := congrArg List.length h; rw [List.length_drop, List.length_nil] at this; omega
+      have hsort' := hsort
+      rw [← hsplit, List.pairwise_append] at hsort'
+      obtain ⟨hst, hsd, _⟩ := hsort'
+      have RL := ih htne (fun x hx => hleaf x (List.mem_of_mem_take hx)) hst hl
+      have RR := ih hdne (fun x hx => hleaf x (List.mem_of_mem_drop hx)) hsd hr
+      exact range_node hk1 hklt hleaf hsort RL RR hn
+
 end Lumina.Proofs.Nmt
